@@ -503,6 +503,7 @@ func c16Paired(p *Prog, r *Report) {
 
 func mutantsC16() []Mutant {
 	return []Mutant{
+		{Name: "proxywriter-without-logger", File: "utils/netutils.go", Old: "\treturn NewProxyWriterWithLogger(w, &NoopLogger{})\n", New: "\treturn &ProxyWriter{w: w}\n", Expect: "C16.R4"},
 		{Name: "proxywriter-header-snapshot", File: "utils/netutils.go", Old: "func (p *ProxyWriter) Header() http.Header {\n\treturn p.w.Header()\n}", New: "func (p *ProxyWriter) Header() http.Header {\n\tif p.code != 0 {\n\t\treturn p.w.Header().Clone()\n\t}\n\treturn p.w.Header()\n}", Expect: "C16.R4"},
 		{Name: "proxywriter-flush-before-hijack", File: "utils/netutils.go", Old: "\tif hi, ok := p.w.(http.Hijacker); ok {\n\t\treturn hi.Hijack()", New: "\tif hi, ok := p.w.(http.Hijacker); ok {\n\t\tp.Flush()\n\t\treturn hi.Hijack()", Expect: "C16.R4"},
 		{Name: "deferred-url-read-late", File: "forward/middlewares.go", Old: "\tdefer s.stateListener(req.URL, StateDisconnected)\n", New: "\tdefer func() { s.stateListener(req.URL, StateDisconnected) }()\n", Expect: "C16.R3"},
